@@ -103,6 +103,10 @@ func (w *Worker) endPath(why string) { panic(pathEnd{why}) }
 
 var gDeadline time.Time
 
+// maxForksPerJob bounds the size of one job's exploration (the largest registered thorough
+// job forks about 8 million times).
+const maxForksPerJob = 20_000_000
+
 // ---- scheduler --------------------------------------------------------------------------
 
 type workItem struct {
@@ -206,7 +210,13 @@ func (e *Engine) runJobs(jobs []*Job, nworkers int) {
 func (w *Worker) push(st *State) {
 	w.job.mu.Lock()
 	w.job.Forks++
+	over := w.job.Forks > maxForksPerJob
 	w.job.mu.Unlock()
+	if over {
+		// path explosion: stop adding work for this job; it ends inconclusive
+		w.job.inconclusive(fmt.Sprintf("more than %d forks in one job: exploration cut", maxForksPerJob))
+		return
+	}
 	w.sch.push(workItem{w.job, st})
 }
 
@@ -1896,6 +1906,26 @@ func (w *Worker) builtin(st *State, f *Frame, x *ssa.Call, b *ssa.Builtin) {
 		f.env[x] = mkBV(uint64(n), 64)
 	case "delete":
 		w.mapDelete(st, w.get(st, f, args[0]).(MapV), w.get(st, f, args[1]))
+	case "min", "max":
+		acc, ok := w.get(st, f, args[0]).(Term)
+		if !ok || acc.Sort == SFP || acc.Sort == SBool {
+			panic(engineErr("builtin " + b.Name() + " on non-integer operands"))
+		}
+		bt, _ := args[0].Type().Underlying().(*types.Basic)
+		_, signed := intWidth(bt)
+		for _, a := range args[1:] {
+			t := w.get(st, f, a).(Term)
+			lt := "bvult"
+			if signed {
+				lt = "bvslt"
+			}
+			c := bvCmp(lt, t, acc)
+			if b.Name() == "max" {
+				c = bvCmp(lt, acc, t)
+			}
+			acc = mkIte(c, t, acc)
+		}
+		f.env[x] = acc
 	default:
 		panic(engineErr("builtin " + b.Name()))
 	}
